@@ -190,7 +190,7 @@ func VerifC19Ops() {
 	if vnd.Pick(2) == 0 {
 		start = addrStarts[vnd.Pick(len(addrStarts))]
 	} else {
-		start = startURLs[vnd.Pick(vnd.Param("C19.Starts", 8, 18))]
+		start = startURLs[vnd.Pick(vnd.Param("C19.Starts", 8, 19))]
 	}
 	u, err := Parse(start)
 	if err != nil {
